@@ -200,11 +200,59 @@ def scen_cli(ch, params, out):
         ld.close()
 
 
+def api_patterns():
+    """patterns as the library API takes them: strings and compiled patterns, the latter with flags"""
+    return {
+        "hex_ignorecase": [re.compile(r"^[0-9a-f]{4}$", re.I)],
+        "hex": [re.compile(r"^[0-9a-f]{4}$")],
+        "word_ascii": [re.compile(r"^\w+$", re.A)],
+        "word_unicode": [re.compile(r"^\w+$")],
+        "digits_verbose": [re.compile(r"^ \d+ $  # digits only", re.X)],
+        "digits_string": [r"^\d+$"],
+        "same_text_two_flag_sets": [re.compile(r"^[a-z]+$"), re.compile(r"^[a-z]+$", re.I)],
+        "same_text_two_flag_sets_reversed": [re.compile(r"^[a-z]+$", re.I), re.compile(r"^[a-z]+$")],
+        "string_and_compiled": [r"^\d+$", re.compile(r"^[a-f]+$", re.I)],
+        "dotall_multiline": [re.compile(r"^a.b$", re.S), re.compile(r"^x$", re.M)],
+    }
+
+
+API_KEYSETS = [["DEAD", "beef"], ["dead", "beef"], ["12", "7"], ["gr\u00f6\u00dfe", "\u0438\u043c\u044f"], ["abc", "XYZ"], ["abc", "xyz"], ["a\nb"], ["x\ny", "x"],
+               ["ABC"], ["12", "x"]]
+
+
+def scen_api(ch, params, out):
+    """library API: the Dict-vs-model decision uses exactly the pattern objects that were passed (text AND flags)"""
+    from json_to_models.dynamic_typing import DDict
+    from json_to_models.generator import MetadataGenerator
+    pats = api_patterns()
+    name, keys = ch.choose("patterns,keys", [(n, k) for n in pats for k in API_KEYSETS], shard=True)
+    plist = pats[name]
+    position = ch.choose("position", ["field", "list_item", "nested"])
+    obj = {k: i for i, k in enumerate(keys)}
+    sample = {"payload": obj} if position == "field" else ({"payload": [obj]} if position == "list_item" else {"outer": {"pay-load": obj, "n-1": 1}})   # outer keys match no pattern of the pool
+    out.info = {"patterns": name, "keys": keys, "position": position}
+    compiled = [re.compile(p) if isinstance(p, str) else p for p in plist]
+    expect_dict = any(all(p.match(k) for k in keys) for p in compiled)
+    try:
+        ir = MetadataGenerator(dict_keys_regex=list(plist)).generate(sample)
+    except Exception as e:
+        out.fail("generate_raises", f"{type(e).__name__}: {e} for patterns {name} keys {keys}", "generate_raises")
+        return
+    t = ir["payload"] if position != "nested" else ir["outer"]["pay-load"]
+    if position == "list_item":
+        t = t.type
+    out.check(isinstance(t, DDict) == expect_dict, "api_dict_decision_wrong",
+              lambda: f"patterns {name} = {[(p.pattern, p.flags) for p in compiled]}, keys {keys} ({position}): expected {'Dict' if expect_dict else 'model'}, inferred {t}",
+              "api_dict_decision_wrong")
+
+
 def parts(tier):
     if tier == "quick":
         return [CH("decision", "vflib.props.c13:scen_decision", {}, shards=7, timeout=170, path_timeout=30, mode="CH-P"),
+                CH("api_pattern_objects", "vflib.props.c13:scen_api", {}, shards=16, timeout=170, path_timeout=30),
                 CH("cli", "vflib.props.c13:scen_cli", {}, shards=16, timeout=170, path_timeout=30)]
     return [CH("decision", "vflib.props.c13:scen_decision", {}, shards=7, timeout=250, path_timeout=30, mode="CH-P"),
+            CH("api_pattern_objects", "vflib.props.c13:scen_api", {}, shards=16, timeout=250, path_timeout=30),
             CH("cli", "vflib.props.c13:scen_cli", {}, shards=16, timeout=250, path_timeout=30)]
 
 
